@@ -561,6 +561,7 @@ def _sqrt_of_a_difference_is_clamped(ctx: Ctx):
 def _mutants():
     from selftest.mutate import Mutant as M
     _extra = [
+        M("pad-value-dropped", "_feats.py", "x = torch.nn.functional.pad(x, (width * order, width * order), pad_mode, value)", "x = torch.nn.functional.pad(x, (width * order, width * order), pad_mode)", "every-accepted-option-is-read"),
         M("dim-resolved-before-stack-rank", "_feats.py", "if not concatenate:\n        D += 1", "dim = (dim + D) % D\n    if not concatenate:\n        D += 1", "dim-resolved-against-output-rank"),
         M("time-dim-against-output-rank", "_feats.py", "time_dim = (time_dim + D) % D\n    if not concatenate:\n        D += 1", "if not concatenate:\n        D += 1\n    time_dim = (time_dim + D) % D", "time_dim-resolved-against-input-rank"),
         M("store-divides-sumsq-in-place", "_feats.py", "var = sumsq / count - mean.square()", "var = sumsq.div_(count) - mean.square()", "statistics-are-not-modified"),
